@@ -307,7 +307,7 @@ TEXT = {
         "level_text": "Proved for the model of the GFA export: every L record is an edge reported from the side it names (soundness) and, on graphs with "
                       "symmetric edge lists, every adjacency - between nodes, circular self-link, hairpin self-link on either side - is written at "
                       "least once (completeness; this is the clause that D6 violated); gfa_links_complete_ginv derives the symmetry needed from "
-                      "the node-level invariant GInv, which is proved for every graph compress_kmers builds (gfa_complete_of_compress). gfa_no_duplicate: for EVERY graph no two L records name the same pair of ports in "
+                      "the node-level invariant GInv, which is proved for every graph compress_kmers builds (gfa_complete_of_compress), for the result of compress_graph without censoring (C20_gfa_complete_after_recompress) and for the sharded pipeline's final graph. gfa_no_duplicate: for EVERY graph no two L records name the same pair of ports in "
                       "either order (edges of one side go to pairwise different ports; the id filters admit each adjacency from one end only) - "
                       "with completeness: exactly once. JSON well-formedness and serde round trips are "
                       "decided by execution: records re-read into port pairs and counted, the JSON parsed with serde_json and its counts compared "
